@@ -36,9 +36,24 @@ CHECKS = {
             EXPL % "", BASE + "; canvas is a recording stand-in", "6 (C16)", 900, 3600),
     "C19": (REPL % "omitted-mapping" + "per seed, the spec as written and variants with the omitted section written out as the independently computed canonical default must compile to byte-identical text",
             EXPL % "", "trusted base: the harness's own computation of the canonical default from the YAML (gen/classes.py effective_loop_order)", "6 (C19)", 900, 3600),
+    "C10": ("deterministic simulation with a schedule seam: teaal.ir.flow_graph's topological_sort replaced, per unit, by Kahn's algorithm whose tie-breaks the simulator's PRNG decides (plus the real hash-seed orders); order / nesting / hoisting invariants on (flow graph, statement sequence) and closedness + dense-model agreement of the full translation under every tie-break",
+            "seeded exploration of (specification x hash seed x tie-break stream): 12 quick / 48 thorough linear extensions per (spec, seed); replayable (recorded picks); evidence, not proof",
+            "trusted base: the compiler's own (pruned) dependence graph for the edge invariant - a lost edge is only caught through the closedness/dense cross-check under fuzzed tie-breaks", "6 (C10)", 900, 3600),
+    "C11": (REPL % "class-M (architecture/bindings/format)" + "metrics-mode program and its plain-mode twin executed on identical inputs with inert recording stand-ins; tensors compared under every common name and with the dense model",
+            EXPL % "", BASE + "; Metrics/Traffic/Compute/Format/intersector models are inert stand-ins (model/standins.py)", "6 (C11)", 900, 3600),
+    "C12": (REPL % "class-M" + "emitted metrics program run against a simulated trace-file store; produce-before-consume / open-close check over the recorded event history (global sequence numbers)",
+            EXPL % "", "trusted base: trace-store semantics of the stand-ins (endCollect materialises registered traces; filterTrace reads two names and writes one); class-M bindings follow the accelerator patterns", "6 (C12)", 900, 3600),
+    "C13": ("deterministic simulation of operation histories: seeded histories of 2-6 Einsums fed step by step to real Program/Hardware/Fusion objects with the block invariant checked after every step, plus whole class-M compilations whose executed dump yields metrics['blocks']; oracle recomputed from the YAML",
+            "seeded exploration of histories (no schedule or fault dimension exists for this property); replayable; evidence, not proof",
+            "trusted base: the harness's spec-side model of configuration, temporal prefix and bound functional components (model/metrics_oracle.py)", "6 (C13)", 900, 3600),
+    "C14": (REPL % "class-M cascade" + "counting stand-ins hand out exact spaced values; the program is re-executed once per handed-out value with that value boosted so every component dominates its block in some run; roll-up and per-component formula recomputed from the YAML",
+            EXPL % " and of valuations", "trusted base: arithmetic in Fractions; spec-side model of clock, bandwidth and instance counts (model/metrics_oracle.py)", "6 (C14)", 900, 3600),
+    "C15": ("deterministic simulation of compilation histories with fault injection: seeded histories of parse / compile-on-shared-objects / compile-fresh operations with injected rejected compilations and compilations aborted at the n-th teaal line event (sys.settrace), each history in a pristine child per hash seed; invariants after every operation: deep snapshots of parsed objects unchanged, every text equals the pristine-fork reference T(spec, seed)",
+            "seeded exploration of (history x fault points x hash seed); fault-free and fault-injecting histories separate; replayable; evidence, not proof",
+            "trusted base: generic deep snapshot (units/c15.py freeze) of the five parsed objects; aborts raised only in teaal's own frames", "6 (C15)", 1500, 3600),
 }
 
-PLANNED = ["C10", "C11", "C12", "C13", "C14", "C15"]
+PLANNED = []
 
 
 def main():
